@@ -91,7 +91,10 @@ def r1(ctx):
     okf = False
     if len(fm) == 1 and fm[0][2][1][0] == "agg":
         cb, _ = mir.closure_body(ctx.facts, fm[0][2][1])
-        okf = render(cb.return_term()) == "future::ready(Result::ok($1))"
+        # `.ok()` read as a match (inlined view): Ok(x) -> ready(Some(x)), Err(_) -> ready(None)
+        okf = render(cb.return_term()) in ("future::ready(Result::ok($1))", "future::ready(phi(Option::None{} | Option::Some{0: $1.as:Ok.0}))") and \
+            common.case_table(cb) in ({"true": ["future::ready(Result::ok($1))"]},
+                                      {"($1 is Ok)": ["future::ready(Option::Some{0: $1.as:Ok.0})"], "($1 is Err)": ["future::ready(Option::None{})"]})
     ctx.check("with_reconnect_backoff", okf, "failed attempts deliver nothing (result.ok())", key="drop-errors")
     rt = wb.return_term()
     shape = len(fm) == 1 and rt == fm[0] and fm[0][2][0][0] == "call" and fm[0][2][0][1].endswith("StreamExt::scan") and \
